@@ -32,7 +32,14 @@ fi
 # repository are only ever written by runs against /repo itself
 vc=/tmp/seedrun_verif_$name
 rm -rf "$vc"; mkdir -p "$vc"
-rsync -a --exclude .git --exclude replays --exclude evidence --exclude seeded --exclude fixes /verif/ "$vc"/
+# (the COMMITTED state of /verif, so that work in progress in the working tree does not leak in;
+#  VERIF_WORKTREE=1 takes the working tree instead)
+if [ "${VERIF_WORKTREE:-0}" = "1" ]; then
+  rsync -a --exclude .git --exclude replays --exclude evidence --exclude seeded --exclude fixes /verif/ "$vc"/
+else
+  git -C /verif archive HEAD | tar -x -C "$vc" --exclude=replays --exclude=evidence --exclude=seeded --exclude=fixes
+  mkdir -p "$vc/replays" "$vc/evidence"
+fi
 trap 'git -C /repo worktree remove --force "$wt" >/dev/null 2>&1; git -C /repo worktree prune; rm -rf "$vc"' EXIT
 for pid in "$@"; do
   ( cd "$vc" && VERIF_REPO="$wt" ./check "$pid" --tier quick > /tmp/seedrun_${name}_$pid.log 2>&1 ); rc=$?
